@@ -27,8 +27,8 @@ Proof.
     rewrite props_roundtrip; [reflexivity|now apply props_valid_ok in H2|lia].
 Qed.
 
-Lemma entries_roundtrip es : forall fuel,
-  forallb (fun e => str_ok (fst e) && (snd e <? 256)) es = true ->
+Lemma entries_roundtrip (q : N -> bool) es : forall fuel,
+  forallb (fun e => str_ok (fst e) && q (snd e)) es = true ->
   (length (flat_map (fun e => enc_lp (fst e) ++ [snd e]) es) <= fuel)%nat ->
   dec_entries fuel (flat_map (fun e => enc_lp (fst e) ++ [snd e]) es) = Some es.
 Proof.
@@ -151,7 +151,7 @@ Proof.
   apply andb_true_iff in H as [Hp Hps]. unfold pid_ok in Hp. apply andb_true_iff in Hp as [_ Hp].
   unfold decode_body, enc_body. type_tests 8. change (2 =? 2) with true. cbn [negb].
   rewrite pid_roundtrip by lia. cbn [obind]. rewrite (vprops_roundtrip v L_SUBSCRIBE ps _ Hps). cbn [obind].
-  rewrite entries_roundtrip; [reflexivity|exact He|lia].
+  rewrite (entries_roundtrip (sub_opts_ok v)); [reflexivity|exact He|lia].
 Qed.
 
 Lemma suback_body_roundtrip v idw pid ps codes :
@@ -300,4 +300,40 @@ Proof.
   unfold packet_ok. intro H. apply andb_true_iff in H as [_ Hl]. apply N.leb_le in Hl.
   exists (enc_body v idw b). split; [reflexivity|]. split; [reflexivity|].
   unfold encode. cbv zeta. cbn [length]. rewrite app_length. pose proof (vbi_enc_length _ Hl). lia.
+Qed.
+
+(* ---------- C04: what the reference decoder accepts ---------- *)
+Theorem decode_accepts_only_valid v idw l b : decode v idw l = Some b -> body_ok v idw b = true.
+Proof.
+  unfold decode. destruct l as [|h t]; [discriminate|].
+  destruct (vbi_dec t) as [[rl r]|]; cbn [obind]; [|discriminate].
+  destruct (negb _); [discriminate|].
+  destruct (decode_body v idw (h / 16) (h mod 16) r) as [b'|]; cbn [obind]; [|discriminate].
+  destruct (body_ok v idw b') eqn:E; [|discriminate]. intro H. inversion H. subst. exact E.
+Qed.
+
+(* the primitive decoders never claim more than they were given *)
+Lemma dec_lp_consumes l d t : dec_lp l = Some (d, t) -> (length d + length t + 2 = length l)%nat.
+Proof.
+  unfold dec_lp, dec_u16. destruct l as [|a [|b l]]; try discriminate.
+  destruct (N.of_nat (length l) <? a * 256 + b) eqn:E; [discriminate|]. intro H. inversion H; subst.
+  rewrite firstn_length, skipn_length. cbn [length]. lia.
+Qed.
+
+Lemma vbi_dec_consumes l n t : vbi_dec l = Some (n, t) -> (1 <= length l - length t <= 4)%nat /\ (length t <= length l)%nat.
+Proof.
+  unfold vbi_dec. destruct (vbi_dec_f 4 1 0 l) as [[n' t']|] eqn:E; [|discriminate].
+  destruct (_ =? _) eqn:Es; [|discriminate]. intro H. inversion H; subst.
+  unfold vbi_size in Es.
+  assert (length t <= length l)%nat.
+  { destruct l as [|b0 l]; cbn [vbi_dec_f] in E; [discriminate|].
+    destruct (b0 <? 128); [inversion E; subst; cbn [length]; lia|].
+    destruct l as [|b1 l]; cbn [vbi_dec_f] in E; [discriminate|].
+    destruct (b1 <? 128); [inversion E; subst; cbn [length]; lia|].
+    destruct l as [|b2 l]; cbn [vbi_dec_f] in E; [discriminate|].
+    destruct (b2 <? 128); [inversion E; subst; cbn [length]; lia|].
+    destruct l as [|b3 l]; cbn [vbi_dec_f] in E; [discriminate|].
+    destruct (b3 <? 128); [inversion E; subst; cbn [length]; lia|discriminate]. }
+  split; [|exact H0].
+  destruct (n <? 128); [lia|]. destruct (n <? 16384); [lia|]. destruct (n <? 2097152); lia.
 Qed.
